@@ -95,11 +95,12 @@ def scan_v1(lines):
     return out
 
 
-TRANSFORMS = ("blank", "blank_ws", "trail", "comment", "indent2", "indent3", "combo")
+TRANSFORMS = ("blank", "blank_ws", "trail", "comment", "indent2", "indent3", "combo", "comment_ellipsis")
+_ELLIPSIS_LINE = re.compile(r"^ +\.\.\.")  # what the 2.x pre-parser expands in place
 
 
 def applicable(tf, ver):
-    return not (ver == "1.0" and tf == "comment")
+    return not (ver == "1.0" and tf in ("comment", "comment_ellipsis"))
 
 
 def transform(text, ver, tf, rng, dense=False):
@@ -145,9 +146,18 @@ def transform(text, ver, tf, rng, dense=False):
                 if ln.strip() and rng.random() < p:
                     lines[i] = ln + " " * rng.randint(1, 3)
                     changed += 1
+        elif t == "comment_ellipsis":
+            # kept apart from "comment": text after the `...` shortcut is a separate mechanism
+            for i, ln in enumerate(lines):
+                if inside[i] or triple[i] or ln.strip() != "..." or not _ELLIPSIS_LINE.match(ln):
+                    continue
+                lines[i] = ln.rstrip() + " " * rng.randint(1, 4) + "# c0mment"
+                changed += 1
+            if not changed:
+                return None, "expected: no-ellipsis-line"
         elif t == "comment":
             for i, ln in enumerate(lines):
-                if inside[i] or triple[i] or not ln.strip():
+                if inside[i] or triple[i] or not ln.strip() or _ELLIPSIS_LINE.match(ln):
                     continue
                 if rng.random() < p:
                     lines[i] = ln + rng.choice(["  # c0mment", " # x", "  #", ' # say "q" \'z', "  # and or when"])
@@ -353,7 +363,7 @@ def gen_v2(seed):
             elif k == 18:
                 res.append(pad + "send " + ev() + "(\n" + pad + "    text=\"%s\",\n" % tk.s() + pad + "  count=%d\n" % rng.randint(0, 9) + pad + ")")
             elif k == 19:
-                res.append(pad + "priority 0.%d" % rng.randint(1, 9))
+                res.append(pad + rng.choice(["priority 0.%d" % rng.randint(1, 9), "..."]))
             elif k == 20:
                 res.append(pad + '%s = """%s\n%s  second line # kept\n%s"""' % (var(), tk.s(), pad, pad))
             else:
